@@ -23,6 +23,7 @@ import (
 	"encoding/json"
 	"fmt"
 	"hash/fnv"
+	"io"
 	"net"
 	"os"
 	"runtime"
@@ -468,15 +469,21 @@ func runXRead(c xreadCase, sec *vh.Section) {
 	}
 	var failed int32
 	var total int64
+	check1 := func(p, i int, e *api.LogEvent) string {
+		wantF := fmt.Sprintf("src=x%d,i=%d", p, i%7)
+		if e.Timestamp != int64(i+1) || e.Message != xMsg(p, i, c.MsgLen) || e.Tags != lines[p] || e.Fields != wantF {
+			return fmt.Sprintf("partition pk=%d event #%d read back as ts=%d tags=%q fields=%q msg=%.60q; written as ts=%d tags=%q fields=%q msg=%.60q",
+				p, i, e.Timestamp, e.Tags, e.Fields, e.Message, i+1, lines[p], wantF, xMsg(p, i, c.MsgLen))
+		}
+		return ""
+	}
 	check := func(p int, evs []*api.LogEvent, who string) string {
 		if len(evs) != c.Events {
 			return fmt.Sprintf("%s: partition pk=%d: %d events returned, %d written", who, p, len(evs), c.Events)
 		}
 		for i, e := range evs {
-			wantF := fmt.Sprintf("src=x%d,i=%d", p, i%7)
-			if e.Timestamp != int64(i+1) || e.Message != xMsg(p, i, c.MsgLen) || e.Tags != lines[p] || e.Fields != wantF {
-				return fmt.Sprintf("%s: partition pk=%d event #%d read back as ts=%d tags=%q fields=%q msg=%.60q; written as ts=%d tags=%q fields=%q msg=%.60q",
-					who, p, i, e.Timestamp, e.Tags, e.Fields, e.Message, i+1, lines[p], wantF, xMsg(p, i, c.MsgLen))
+			if m := check1(p, i, e); m != "" {
+				return who + ": " + m
 			}
 		}
 		return ""
@@ -496,6 +503,74 @@ func runXRead(c xreadCase, sec *vh.Section) {
 		}
 	}
 	tSetup = time.Since(t0)
+	// phase 1b: a page RE-REQUESTED on a held (cached) cursor — same ReqId, the Pos of an earlier answer (a client that lost the
+	// answer asks again; cursors are held for WaitTimeout > 0) — must be that page again: it starts with the event AT the requested
+	// position. Not schedule dependent. Through the RPC querier and the in-process backend.Querier.
+	if c.Events >= 20 {
+		one := func(via string, req *api.QueryRequest) (*api.QueryResult, error) {
+			if via == "rpc" {
+				r := &api.QueryResult{}
+				if err := srv.Client.Query(ctx, req, r); err != nil {
+					return nil, err
+				}
+				return r, r.Err
+			}
+			r, err := srv.Querier.Query(ctx, req)
+			if err == io.EOF {
+				err = nil
+			}
+			return r, err
+		}
+		for _, via := range []string{"rpc", "querier"} {
+			show := func(r *api.QueryResult) string {
+				var sb strings.Builder
+				for _, e := range r.Events {
+					fmt.Fprintf(&sb, " ts=%d", e.Timestamp)
+				}
+				return sb.String()
+			}
+			p := 0
+			req1 := &api.QueryRequest{Query: fmt.Sprintf("select from pk=%d", p), Limit: 5, WaitTimeout: 1}
+			r1, err := one(via, req1)
+			if err != nil || r1 == nil || len(r1.Events) != 5 {
+				res.Note("xread: held cursor via %s: first page: %v", via, err)
+				continue
+			}
+			again := r1.NextQueryRequest // page 2's request
+			r2, err := one(via, &again)
+			if err != nil || r2 == nil || len(r2.Events) != 5 {
+				res.Note("xread: held cursor via %s: second page: %v", via, err)
+				continue
+			}
+			first2 := show(r2)
+			again2 := r1.NextQueryRequest // the same request once more: same ReqId, the earlier Pos
+			r3, err := one(via, &again2)
+			msg := ""
+			if err != nil || r3 == nil {
+				msg = fmt.Sprintf("error %v", err)
+			} else {
+				msg = show(r3)
+				for i, e := range r3.Events {
+					if m := check1(p, 5+i, e); m != "" {
+						msg += " | " + m
+						break
+					}
+				}
+				if len(r3.Events) != 5 {
+					msg += fmt.Sprintf(" | %d events", len(r3.Events))
+				}
+			}
+			if msg != first2 {
+				res.SpecFail(vh.SpecFailure{Section: "xread", Kind: "resent-page-differs", Input: c, Impl: clip("via " + via + ": page 2 re-requested:" + msg), Spec: "page 2 as first answered:" + first2 + " (events #5..#9 of the partition)",
+					What: "a page re-requested on a held cursor (same ReqId, the Pos of the earlier answer, WaitTimeout > 0) is not the page at that position: it must start with the event at the requested position and hold the same events"})
+				return
+			}
+			// let the cursor go
+			fin := r3.NextQueryRequest
+			fin.WaitTimeout = 0
+			one(via, &fin)
+		}
+	}
 	stopW := make(chan struct{})
 	var wwg sync.WaitGroup
 	for w := 0; w < c.Writers; w++ {
